@@ -207,7 +207,12 @@ func (r Rule) Apply(facts *FactSet, newFacts *FactSet, syms *SymbolTable) error 
 		}
 	}
 
-	combinations := combine(variables, r.Body, r.Expressions, facts, syms)
+	// closed when Apply returns, so that the producer goroutine never stays
+	// blocked on a send nobody will receive
+	stop := make(chan struct{})
+	defer close(stop)
+
+	combinations := combine(variables, r.Body, r.Expressions, facts, syms, stop)
 
 	for res := range combinations {
 		if res.error != nil {
@@ -481,7 +486,7 @@ func (m MatchedVariables) Clone() MatchedVariables {
 	return res
 }
 
-func combine(variables MatchedVariables, predicates []Predicate, expressions []Expression, facts *FactSet, syms *SymbolTable) <-chan struct {
+func combine(variables MatchedVariables, predicates []Predicate, expressions []Expression, facts *FactSet, syms *SymbolTable, stop <-chan struct{}) <-chan struct {
 	MatchedVariables
 	error
 } {
@@ -564,10 +569,13 @@ func combine(variables MatchedVariables, predicates []Predicate, expressions []E
 						res, err := e.Evaluate(complete_vars, syms)
 						if err != nil {
 							fmt.Printf("expression error: %+v", err)
-							c <- struct {
+							select {
+							case c <- struct {
 								MatchedVariables
 								error
-							}{complete_vars, err}
+							}{complete_vars, err}:
+							case <-stop:
+							}
 
 							return
 						}
@@ -579,10 +587,14 @@ func combine(variables MatchedVariables, predicates []Predicate, expressions []E
 
 					if valid {
 						//fmt.Printf("sending valid variables %+v\n", complete_vars)
-						c <- struct {
+						select {
+						case c <- struct {
 							MatchedVariables
 							error
-						}{complete_vars, nil}
+						}{complete_vars, nil}:
+						case <-stop:
+							return
+						}
 					}
 				} else {
 					// if all predicates match but variables are not complete, it means
